@@ -251,15 +251,17 @@ func (h *HttpServer) handleOAuthLogout(w http.ResponseWriter, r *http.Request) {
 }
 
 // pkceRedirectToOAuth generates PKCE parameters, packs a session cookie,
-// and redirects the user to the authorization endpoint.
-func (h *HttpServer) pkceRedirectToOAuth(w http.ResponseWriter, r *http.Request) {
+// and redirects the user to the authorization endpoint. It reports whether
+// it answered the request: false means nothing was written (OIDC discovery
+// failed) and the caller must answer itself.
+func (h *HttpServer) pkceRedirectToOAuth(w http.ResponseWriter, r *http.Request) bool {
 	pkce := h.pkce
 
 	// Discover authorization endpoint
 	authEndpoint, _, ok := pkce.oidcDiscovery()
 	if !ok {
 		slog.Warn("PKCE redirect skipped: OIDC discovery failed")
-		return // Fall through to normal 401
+		return false // nothing written: the caller answers with the normal 401
 	}
 
 	// Generate PKCE parameters
@@ -318,6 +320,7 @@ func (h *HttpServer) pkceRedirectToOAuth(w http.ResponseWriter, r *http.Request)
 	w.Header().Set("Location", authURL)
 	w.Header().Set("Cache-Control", "no-cache, no-store, must-revalidate")
 	w.WriteHeader(http.StatusFound)
+	return true
 }
 
 // isJWTExpired decodes a JWT's exp claim and returns true if the token is expired.
@@ -375,17 +378,15 @@ func (h *HttpServer) wrapPageWithPkce(handler http.HandlerFunc) http.HandlerFunc
 		if h.authenticateFunc != nil {
 			auth, err := h.authenticateFunc(r)
 			if err != nil {
-				// Only redirect browsers (Accept: text/html)
+				// Only a definitive rejection may start a login, and only
+				// for a browser (Accept: text/html): an unreachable authority
+				// or an internal error stays 503 / 500, and a redirect that
+				// could not be built falls through to the 401.
 				accept := r.Header.Get("Accept")
-				if strings.Contains(accept, "text/html") {
-					h.pkceRedirectToOAuth(w, r)
+				if isAuthRejection(err) && strings.Contains(accept, "text/html") && h.pkceRedirectToOAuth(w, r) {
 					return
 				}
-				// Non-browser: return 401
-				if h.wwwAuthenticate != "" {
-					w.Header().Set("WWW-Authenticate", h.wwwAuthenticate)
-				}
-				http.Error(w, "Authentication required", http.StatusUnauthorized)
+				h.writeAuthError(w, r, err)
 				return
 			}
 			// Authenticated successfully — serve the page
